@@ -42,6 +42,10 @@ def ops_for(nodes):
     ops.append(("copy_edit",))
     ops.append(("get_random_cpds",))
     ops.append(("add_edges_from_cycle",))
+    ops.append(("add_edges_from_weighted_cycle",))
+    ops.append(("add_edges_from_weighted_selfloop",))
+    for v in nodes:
+        ops.append(("do_copy_edit", [v]))
     return ops
 
 
@@ -197,6 +201,37 @@ def run_bn(desc, M):
                 if len(ns) < 2:
                     continue
                 model.add_edges_from([(ns[0], ns[1]), (ns[1], ns[0])])
+            elif kind in ("add_edges_from_weighted_cycle", "add_edges_from_weighted_selfloop"):
+                ns = [x for x in model.nodes()]
+                if len(ns) < 2:
+                    continue
+                eb = [(ns[0], ns[1]), (ns[1], ns[0])] if kind.endswith("cycle") else [(ns[0], ns[1]), (ns[1], ns[1])]
+                if kind.endswith("cycle") and (model.has_edge(ns[1], ns[0]) or nx.has_path(model, ns[1], ns[0])):
+                    eb = [(ns[1], ns[0]), (ns[0], ns[1])]
+                model.add_edges_from(eb, weights=[1, 2])
+                M.fail("weighted bulk insertion of a cycle-closing / self-loop edge must be rejected", f"{tag}: accepted {eb}")
+            elif kind == "do_copy_edit":
+                if not all(x in model.nodes() for x in op[1]):
+                    continue
+                new = model.do(list(op[1]), inplace=False)
+                M.check(same(M, snapshot(model), before), "do(inplace=False) leaves the original model unchanged", detail=tag)
+                shared = {id(c) for c in model.cpds} & {id(c) for c in new.cpds}
+                M.check(not shared, "do(inplace=False) shares no CPD object with the original", detail=f"{tag}: {len(shared)} shared")
+                snap_new = snapshot(new)
+                # in-place edits of the result must not reach the original, and vice versa
+                for c in new.cpds:
+                    c.values[(0,) * c.values.ndim] = 7
+                for x in list(new.nodes())[:1]:
+                    new.remove_node(x)
+                M.check(same(M, snapshot(model), before), "editing the result of do() never changes the original", detail=tag)
+                new2 = model.do(list(op[1]), inplace=False)
+                s2 = snapshot(new2)
+                for x in list(model.nodes())[-1:]:
+                    model.remove_node(x)
+                for c in model.cpds:
+                    c.values[(0,) * c.values.ndim] = 5
+                M.check(same(M, snapshot(new2), s2), "editing the original never changes an earlier result of do()", detail=tag)
+                return
             elif kind == "get_random_cpds":
                 random_used = True
                 model.get_random_cpds(n_states={x: card.get(x, 2) for x in model.nodes()}, inplace=True)
@@ -233,7 +268,7 @@ def run_bn(desc, M):
         except (KeyError, nx.NetworkXError) as e:
             raised = e
         after = snapshot(model)
-        if raised is not None and kind != "add_edges_from_cycle" and kind != "remove_nodes_from":
+        if raised is not None and not kind.startswith("add_edges_from") and kind != "remove_nodes_from":
             M.check(same(M, after, before), "a rejected single operation leaves the model unchanged", detail=f"{tag}: {type(raised).__name__}: {raised}")
         if kind == "add_edge" and raised is None:
             M.check(op[1] != op[2], "self-loops are rejected", detail=tag)
